@@ -75,7 +75,8 @@ func validateEverywhere(pj any, wantOK bool) string {
 
 func init() {
 	register(&Suite{
-		Prop: "C13",
+		Prop:     "C13",
+		Parallel: true,
 		Gen: func(c *Ctx) {
 			r := c.R
 			for _, t := range explicitTypes {
